@@ -2,6 +2,7 @@ package psql
 
 import (
 	"fmt"
+	"regexp"
 	"strings"
 
 	"github.com/bmeg/grip/gdbi"
@@ -73,11 +74,19 @@ func (db *GraphDB) Close() error {
 	return db.db.Close()
 }
 
+// tableNameChars describes the graph names that yield valid table identifiers
+var tableNameChars = regexp.MustCompile(`^[A-Za-z][A-Za-z0-9_-]*$`)
+
 // AddGraph creates a new graph named `graph`
 func (db *GraphDB) AddGraph(graph string) error {
 	err := gripql.ValidateGraphName(graph)
 	if err != nil {
 		return err
+	}
+
+	//the name becomes part of the table names below
+	if !tableNameChars.MatchString(graph) {
+		return fmt.Errorf("invalid graph name %s; the sql driver needs letters, digits, '_' and '-', starting with a letter", graph)
 	}
 
 	sanitizedName := strings.Replace(graph, "-", "_", -1)
